@@ -415,15 +415,21 @@ CLI_COMMANDS = [["up", "--format", "json"], ["up", "--summary"], ["diag"],
 RULES_ONLY_COMMANDS = {"discover", "explain"}
 
 
-def make_budget(base, rules_text, views_text):
+def make_budget(base, rules_text, views_text, legacy=0):
     shutil.rmtree(base, ignore_errors=True)
     os.makedirs(os.path.join(base, "config"))
     os.makedirs(os.path.join(base, "data"))
     with open(os.path.join(base, "data", "s.csv"), "w") as f:
         f.write("Date,Description,Amount\n01/10/2025,NETFLIX.COM,15.99\n01/11/2025,COFFEE SHOP,4.50\n02/11/2025,COFFEE SHOP,5.50\n")
+    extra = ""
+    for k in range(legacy):
+        # further sources declared with the deprecated `type:` key (each makes tally emit a deprecation warning of its own)
+        with open(os.path.join(base, "data", f"old{k}.csv"), "w") as f:
+            f.write("Date,Description,Amount\n03/1%d/2025,COFFEE SHOP,3.50\n" % k)
+        extra += f"  - name: Old{k}\n    file: data/old{k}.csv\n    type: amex\n"
     with open(os.path.join(base, "config", "settings.yaml"), "w") as f:
         f.write('year: 2025\nmerchants_file: config/merchants.rules\nviews_file: config/views.rules\ndata_sources:\n  - name: S\n'
-                '    file: data/s.csv\n    format: "{date:%m/%d/%Y},{description},{amount}"\n')
+                '    file: data/s.csv\n    format: "{date:%m/%d/%Y},{description},{amount}"\n' + extra)
     with open(os.path.join(base, "config", "merchants.rules"), "w") as f:
         f.write(rules_text)
     with open(os.path.join(base, "config", "views.rules"), "w") as f:
@@ -434,7 +440,7 @@ def check_cli(case):
     which, text = CLI_CORRUPTIONS[case["corruption"]]
     cmd = CLI_COMMANDS[case["command"]]
     base = os.path.join(R.scratch(), "c17cli")
-    make_budget(base, text if which == "rules" else GOOD_RULES, text if which == "views" else GOOD_VIEWS)
+    make_budget(base, text if which == "rules" else GOOD_RULES, text if which == "views" else GOOD_VIEWS, legacy=case.get("legacy", 0))
     r = proc.run_cli(cmd, cwd=base)
     out = r["stdout"] + "\n" + r["stderr"]
     fname = "merchants.rules" if which == "rules" else "views.rules"
@@ -479,6 +485,9 @@ def gen_cases(tier):
             if CLI_COMMANDS[k][0] in RULES_ONLY_COMMANDS and CLI_CORRUPTIONS[c][0] != "rules":
                 continue
             yield {"part": "cli", "corruption": c, "command": k}
+            if CLI_COMMANDS[k][0] in ("up", "diag"):
+                # the same budget with two more sources that produce warnings of their own (the file's error must not get lost among them)
+                yield {"part": "cli", "corruption": c, "command": k, "legacy": 2}
 
 
 def check_file(case):
